@@ -39,38 +39,58 @@ ItemsOf(d) == IF d.kind = "render" THEN (IF d.lay # 0 THEN ItemsRV ELSE ItemsAll
 \* a layout other than the flat one is only interesting when the body refers to another file
 Exportable(d) == (d.kind = "render" /\ d.lay # 0) => Len(d.body) = 1
 
+\* Mode "diag": the HTML hosts only (a small space in which the diagnostic counterexamples are found quickly)
+InMode(d) == Mode = "diag" => d.hf = "html"
 VARIABLE c
-Init == c \in {d \in Base : Ok(d)}
-Next == /\ Len(c.body) < MaxLenOf(c)
-        /\ \E it \in ItemsOf(c) : c' = [c EXCEPT !.body = Append(@, it)]
+Root == Dim("root", "", "", "", 0, "", FALSE)
+Init == c = Root
+\* Mode: "noexport" = model check only; "exportonly" = write cases.ndjson only; anything else = both
+Next == /\ Mode # "exportonly"
+        /\ IF c = Root THEN c' \in {d \in Base : Ok(d) /\ InMode(d)}
+           ELSE /\ Len(c.body) < MaxLenOf(c)
+                /\ \E it \in ItemsOf(c) : c' = [c EXCEPT !.body = Append(@, it)]
 
 (* ---- design-level results ---- *)
-Vs(d) == Variants(d)
-AllV(d, Pred(_)) == \A i \in 1..Len(Vs(d)) : Pred(Vs(d)[i])
-RefOf(d, name) == RefOut(VariantOf(d, name))
-ImplOf(d, name, V) == ImplOut(VariantOf(d, name), V)
+\* Each model is evaluated once per state (R, F, W, O = outputs of the reference, of the mechanism with both
+\* fixes, as written, with the render fix only; indexed like Variants(c)).
+IdxOf(vs, nm) == CHOOSE i \in 1..Len(vs) : vs[i].name = nm
+All(vs, Pred(_)) == \A i \in 1..Len(vs) : Pred(i)
 \* (T1) the reference semantics satisfies the property's relations: the expansions are sound
-RefRelations == ModelDefined(c) => HoldsOn(c, LAMBDA nm : RefOf(c, nm))
+ThRefRelations(vs, R) == HoldsOn(c, LAMBDA nm : R[IdxOf(vs, nm)])
 \* (T2) with the format test in the render fast path and the macro context kept after a tag, the
 \*      mechanism computes the reference output for every variant of every case
-FixedMeetsRef == ModelDefined(c) => AllV(c, LAMBDA v : ImplOut(v, Fixed) = RefOut(v))
+ThFixedMeetsRef(vs, R, F) == All(vs, LAMBDA i : F[i] = R[i])
 \* (T3) the mechanism as written leaves the reference only for the two named causes
-AsWrittenDeviatesOnlyIf ==
-  ModelDefined(c) => AllV(c, LAMBDA v : ImplOut(v, AsWritten) # RefOut(v) => (MismatchedRender(v.fs) \/ ForeignTagMacro(v.fs)))
-\* (T4) each fix removes its own cause
-RenderFixLeavesOnlyTag ==
-  ModelDefined(c) => AllV(c, LAMBDA v : ImplOut(v, OnlyRenderFixed) # RefOut(v) => ForeignTagMacro(v.fs))
+ThAsWrittenDeviatesOnlyIf(vs, R, W) == All(vs, LAMBDA i : W[i] # R[i] => (MismatchedRender(vs[i].fs) \/ ForeignTagMacro(vs[i].fs)))
+\* (T4) the render fix removes its own cause
+ThRenderFixLeavesOnlyTag(vs, R, O) == All(vs, LAMBDA i : O[i] # R[i] => ForeignTagMacro(vs[i].fs))
 \* (T5) every byte the reference produces is covered by the escaper transcription
-RefDefined == ModelDefined(c) => AllV(c, LAMBDA v : Defined(RefOut(v)))
-Theorems == RefRelations /\ FixedMeetsRef /\ AsWrittenDeviatesOnlyIf /\ RenderFixLeavesOnlyTag /\ RefDefined
+ThRefDefined(vs, R) == All(vs, LAMBDA i : Defined(R[i]))
 \* (diagnostic, expected to FAIL: the counterexample is the model-level exhibit of the divergence)
-AsWrittenRelations == ModelDefined(c) => HoldsOn(c, LAMBDA nm : ImplOf(c, nm, AsWritten))
-AsWrittenRenderRelations == (ModelDefined(c) /\ c.kind = "render") => HoldsOn(c, LAMBDA nm : ImplOf(c, nm, AsWritten))
-AsWrittenOtherRelations == (ModelDefined(c) /\ c.kind # "render") => HoldsOn(c, LAMBDA nm : ImplOf(c, nm, AsWritten))
+ThAsWrittenRelations(vs, W) == HoldsOn(c, LAMBDA nm : W[IdxOf(vs, nm)])
+
+Outs(vs, V) == [i \in 1..Len(vs) |-> ImplOut(vs[i], V)]
+Refs(vs) == [i \in 1..Len(vs) |-> RefOut(vs[i])]
+Theorems ==
+  (c # Root /\ ModelDefined(c)) =>
+    LET vs == Variants(c) R == Refs(vs) IN
+    /\ ThRefRelations(vs, R)
+    /\ ThFixedMeetsRef(vs, R, Outs(vs, Fixed))
+    /\ ThAsWrittenDeviatesOnlyIf(vs, R, Outs(vs, AsWritten))
+    /\ ThRenderFixLeavesOnlyTag(vs, R, Outs(vs, OnlyRenderFixed))
+    /\ ThRefDefined(vs, R)
+RefRelations == (c # Root /\ ModelDefined(c)) => LET vs == Variants(c) IN ThRefRelations(vs, Refs(vs))
+FixedMeetsRef == (c # Root /\ ModelDefined(c)) => LET vs == Variants(c) IN ThFixedMeetsRef(vs, Refs(vs), Outs(vs, Fixed))
+AsWrittenDeviatesOnlyIf == (c # Root /\ ModelDefined(c)) => LET vs == Variants(c) IN ThAsWrittenDeviatesOnlyIf(vs, Refs(vs), Outs(vs, AsWritten))
+RenderFixLeavesOnlyTag == (c # Root /\ ModelDefined(c)) => LET vs == Variants(c) IN ThRenderFixLeavesOnlyTag(vs, Refs(vs), Outs(vs, OnlyRenderFixed))
+RefDefined == (c # Root /\ ModelDefined(c)) => LET vs == Variants(c) IN ThRefDefined(vs, Refs(vs))
+AsWrittenRelations == (c # Root /\ ModelDefined(c)) => LET vs == Variants(c) IN ThAsWrittenRelations(vs, Outs(vs, AsWritten))
+AsWrittenRenderRelations == c.kind = "render" => AsWrittenRelations
+AsWrittenOtherRelations == c.kind # "render" => AsWrittenRelations
 
 (* ---- case export ---- *)
 Bodies(d) == {s \in SeqsUpTo(ItemsOf(d), MaxLenOf(d)) : TRUE}
-Space == {e \in UNION {{[d EXCEPT !.body = s] : s \in Bodies(d)} : d \in {d \in Base : Ok(d)}} : Exportable(e)}
+Space(x) == {e \in UNION {{[d EXCEPT !.body = s] : s \in Bodies(d)} : d \in {d \in Base : Ok(d)}} : Exportable(e)}
 Calib == {Dim("calib", "txt", "text", a, 0, "", FALSE) : a \in TextAtoms}
 \* seeded sample of longer bodies: a multiplicative walk over (base case, item tuple) indexes
 RBase == SetToSeq({d \in Base : Ok(d) /\ d.kind = "render" /\ d.lay = 0})
@@ -89,6 +109,6 @@ Export(d, id) ==
    variants |-> [i \in 1..Len(vs) |->
                    [name |-> vs[i].name, main |-> PathStr(vs[i].main),
                     files |-> [k \in 1..Len(vs[i].fs) |-> SrcFile(vs[i].fs[k])]]]]
-Cases == LET S == SetToSeq(Space \cup Calib \cup Sample) IN [i \in 1..Len(S) |-> Export(S[i], i)]
-ASSUME Mode = "noexport" \/ ndJsonSerialize("cases.ndjson", Cases)
+Cases(x) == LET S == SetToSeq(Space(x) \cup Calib \cup Sample) IN [i \in 1..Len(S) |-> Export(S[i], i)]
+ASSUME Mode = "noexport" \/ ndJsonSerialize("cases.ndjson", Cases(0))
 =============================================================================
